@@ -93,6 +93,14 @@ fn check(v: &AV, acc: &mut Acc) {
             if v2::Addresses::from((s, d6)) != v2::Addresses::Unspecified || v2::Addresses::from((d6, s)) != v2::Addresses::Unspecified {
                 bad(acc, "v2::Addresses::from(mixed pair)", "not Unspecified".into());
             }
+            // a mixed pair stays mixed even when the V6 side is the IPv4-mapped form of an IPv4 address
+            let m6 = SocketAddr::V6(SocketAddrV6::new(Ipv4Addr::from(dst).to_ipv6_mapped(), dp, 0, 0));
+            if v1::Addresses::from((s, m6)) != v1::Addresses::Unknown || v1::Addresses::from((m6, s)) != v1::Addresses::Unknown {
+                bad(acc, "v1::Addresses::from(V4 / IPv4-mapped V6 pair)", "not Unknown".into());
+            }
+            if v2::Addresses::from((s, m6)) != v2::Addresses::Unspecified || v2::Addresses::from((m6, s)) != v2::Addresses::Unspecified {
+                bad(acc, "v2::Addresses::from(V4 / IPv4-mapped V6 pair)", "not Unspecified".into());
+            }
         }
         AV::V6 { src, dst, sport, dport } => {
             let (src, dst, sp, dp) = (*src, *dst, *sport, *dport);
